@@ -288,7 +288,7 @@ FacHandle(w, caller, m) ==
                      w2 == [w1 EXCEPT !.tok = @ @@ (lpa :> [bal |-> [a \in accts |-> N0], supply |-> N0, decimals |-> 6,
                                                             minter |-> pa, allow |-> {}]),
                                       !.pair = @ @@ (pa :> [a0 |-> x, a1 |-> y, d0 |-> TrueDecimals(w, x), d1 |-> TrueDecimals(w, y),
-                                                            lp |-> lpa, commission |-> comm, wl |-> m.whitelist,
+                                                            lp |-> lpa, self_lp |-> lpa, commission |-> comm, wl |-> m.whitelist,
                                                             m0 |-> m.min0, m1 |-> m.min1]),
                                       !.nextc = n + 2]
                      entry == [key |-> PairKey(x, y), a0 |-> x, a1 |-> y, pair |-> pa, lp |-> lpa,
@@ -409,6 +409,7 @@ HookOf(h) == h
 TxMsg(w, op) ==
     CASE op.op = "bank_send"       -> Bank(op.dest, op.coins)
       [] op.op = "cw20_transfer"   -> Wasm(op.token, [op |-> "transfer", dest |-> op.dest, amount |-> op.amount], <<>>)
+      [] op.op = "cw20_burn"       -> Wasm(op.token, [op |-> "burn", amount |-> op.amount], <<>>)
       [] op.op = "cw20_increase_allowance" -> Wasm(op.token, [op |-> "increase_allowance", spender |-> op.spender, amount |-> op.amount], <<>>)
       [] op.op = "cw20_decrease_allowance" -> Wasm(op.token, [op |-> "decrease_allowance", spender |-> op.spender, amount |-> op.amount], <<>>)
       [] op.op = "cw20_send"       -> Wasm(op.token, [op |-> "send", contract |-> op.contract, amount |-> op.amount, hook |-> op.hook], <<>>)
